@@ -28,8 +28,11 @@ ASSUMPTIONS = ['edges_weakly_increasing: the histogram SPEC theorems (holo_eq_sp
                'compared with the code on such edges (stream holo_malformed, why=decreasing-edges, tag outside-domain:decreasing-edges: '
                'compared, not judged by the instance check); non-monotonic edges: ValueError on both sides',
                'squash_time values other than False / sum / mean raise TypeError after the sparse matrix is built (C11.squash_other_raises; '
-               'stream holo_squash_other compares the error kind, including its precedence after shape and edge errors); the mean over an '
-               'empty time axis raises ZeroDivisionError (C11.mean_empty_raises; holo_mean_eq is stated for T > 0)',
+               'stream holo_squash_other compares THAT the call is refused, not the class of the exception); the mean over an '
+               'empty time axis raises ZeroDivisionError (C11.mean_empty_raises; holo_mean_eq is stated for T > 0); for arrays that do not fit '
+               'each other, non-monotone / empty edges and T = 0 the correspondence compares "both refuse / both answer", not the error class',
+               'literal verdicts are given on finite frequencies in [T x M] / [T x M x K] arrays of any real dtype; NaN frequencies, vector-shaped '
+               'first-level input, mismatched shapes, T = 0, side effects on the arguments and time-outs are mechanism-level (literal=False)',
                'amplitudes are finite']
 RULE = ('exhaustive: every assignment of the edge-hitting alphabets {below, negative, each edge, each bin interior, above, NaN} of the '
         'carrier bin set to the T*M first-level samples and of the AM bin set to the T*M*K second-level samples, for (T,M,K) in '
@@ -40,7 +43,10 @@ RULE = ('exhaustive: every assignment of the edge-hitting alphabets {below, nega
         '(254x254 ... 300x300, 2x40000, 40000x2, 70000x1, 1x70000; linear and log), samples on the edges and in the interiors of the '
         'highest, lowest and 2^16-boundary bins and out of range, compared with the model through its sparse entries (op HOLOCOO, '
         'read with holo3d_eq / holo_sum_eq / holo_mean_eq; on every small random case this reading is checked against the model\'s own '
-        'unfolded output); malformed: mismatched T / M / K, 2-D second level, non-monotone or empty edges, T = 0. Every input is '
+        'unfolded output); non-float64 storage (stream holo_dtype): frequency arrays as int64 / int32 / int16 / float32 with edges that are not '
+        'numbers of that dtype (half-integer edges, 0.1-0.3-0.7 grids, float32 neighbours of every edge), integer / float32 / list edge '
+        'vectors; long recordings (stream holo_long): T = 2^14 / 2^15 / 2^16 (/ 2^17) + r samples generated from a seed, content drifting '
+        'over the recording; malformed: mismatched T / M / K, 2-D second level, non-monotone or empty edges, T = 0. Every input is '
         'evaluated as ONE SEQUENCE OF CALLS ON THE SAME ARRAY OBJECTS: the three squash_time settings in one of the 6 orders, a call in '
         'the other mode, the first setting again; each result is compared with the model and with the triple-loop histogram of a '
         'pristine copy, and the arrays handed in are compared with the pristine copy after every call. Non-trivial: at least one sample '
@@ -48,6 +54,43 @@ RULE = ('exhaustive: every assignment of the edge-hitting alphabets {below, nega
 
 LIN = lambda n, lo=1.0: {'lo': lo, 'hi': lo + n, 'n': n, 'scale': 'linear'}   # noqa: E731
 LOG = lambda n: {'lo': 0.5, 'hi': 8.0, 'n': n, 'scale': 'log'}               # noqa: E731
+
+
+# ---------------------------------------------------------------------------------------------
+# what is a LITERAL verdict (review C): C11 speaks about the values of the three outputs for frequency / amplitude arrays with
+# out-of-range and edge-valued frequencies. It says nothing about NaN frequencies, vector-shaped first-level input, arrays that
+# do not fit each other, side effects on the arguments, or how long a call may take. Checks on those stay in place as
+# mechanism-level checks (literal=False: a broken correspondence, never "the property fails on this input").
+
+def has_nan(*xs):
+    return any(bool(np.isnan(_spec.arr(x)).any()) for x in xs)
+
+
+def soften(fs, F1=None, F2=None):
+    """mark the failure kinds that are not the property's own words as mechanism-level"""
+    outside = (F1 is not None and (np.ndim(F1) == 1 or has_nan(F1, F2)))
+    for f in fs:
+        if f.kind.startswith(('input-modified:', 'assumption:')):
+            f.literal = False
+        elif f.kind.startswith('raises:') and (outside or f.kind.endswith(':Timeout')):
+            f.literal = False
+    return fs
+
+
+def impl_error(out):
+    """the whole impl() call failed (the per-call errors are caught inside run_holo): a time-out or a harness problem; the
+    correspondence reports it (compare), termination / harness faults are not the subject of C11"""
+    return [Failure('raises:' + out['error'], out['msg'], literal=False)]
+
+
+def guarded(holds):
+    """an exception inside the instance check itself is a harness fault, not a property failure"""
+    def wrapper(self, case, out):
+        try:
+            return holds(self, case, out)
+        except Exception as e:  # noqa
+            return [Failure('instance-check-crashed', repr(e), literal=False)]
+    return wrapper
 
 
 class Exhaustive(Stream):
@@ -129,16 +172,17 @@ class Exhaustive(Stream):
                     F1, F2, A2, list(map(float, e1)), list(map(float, e2)), case['mode'], d)
         return None
 
+    @guarded
     def holds(self, case, out):
         if isinstance(out, ImplError):
-            return [Failure('raises:' + out['error'], out['msg'])]
+            return impl_error(out)
         fs = {}
         for (combo, e1, e2, F1, F2, A2), o in zip(self._inputs(case), out):
-            for f in _spec.holo_holds(F1, F2, A2, e1, e2, case['mode'], o):
-                if f.kind not in fs:
+            for f in soften(_spec.holo_holds(F1, F2, A2, e1, e2, case['mode'], o), F1, F2):
+                if (f.kind, f.literal) not in fs:
                     f.detail = 'infr=%s infr2=%s inam2=%s carrier edges=%s AM edges=%s mode=%s: %s' % (
                         F1, F2, A2, list(map(float, e1)), list(map(float, e2)), case['mode'], f.detail)
-                    fs[f.kind] = f
+                    fs[(f.kind, f.literal)] = f
         return list(fs.values())
 
     def tags(self, case, out):
@@ -245,11 +289,12 @@ class Single(Stream):
         return (_spec.holo_compare(out, results[:3], len(case['F1']), self._scale(case))
                 or _spec.holo_coo_vs_model(results[3], results[:3]))
 
+    @guarded
     def holds(self, case, out):
         if isinstance(out, ImplError):
-            return [Failure('raises:' + out['error'], out['msg'])]
+            return impl_error(out)
         e1, e2 = self._edges(case)
-        return _spec.holo_holds(case['F1'], case['F2'], case['A2'], e1, e2, case['mode'], out)
+        return soften(_spec.holo_holds(case['F1'], case['F2'], case['A2'], e1, e2, case['mode'], out), case['F1'], case['F2'])
 
     def _cats(self, case):
         e1, e2 = self._edges(case)
@@ -381,6 +426,225 @@ class Large(Single):
         return t
 
 
+# ---------------------------------------------------------------------------------------------
+# frequency arrays / bin-edge vectors that are not float64 (round 3, C11 patch 2: both edge vectors cast to the dtype of the
+# frequency arrays before np.digitize: integer Hz arrays truncate the edges, float32 arrays round them)
+
+DTYPES = ('int64', 'int32', 'int16', 'float32', 'float64')
+
+
+def near_values(e, dt):
+    """values of dtype `dt` hitting the edges of `e` the way that dtype can: for integers floor/ceil of every edge and their
+    neighbours, for float32 the float32 nearest to every edge and its two neighbours (one of them lies between the edge and
+    its float32 rounding whenever the edge is not a float32), interiors, below, above. Returned as exact Python floats."""
+    e = [float(v) for v in e]
+    span = (e[-1] - e[0]) or 1.0
+    vs = []
+    if dt.startswith('int'):
+        for v in e:
+            vs += [np.floor(v) - 1, np.floor(v), np.ceil(v), np.ceil(v) + 1]
+        vs += [np.floor(e[0] - span / 3) - 1, np.ceil(e[-1] + span / 3) + 1, round((e[0] + e[-1]) / 2)]
+        info = np.iinfo(dt)
+        return sorted({float(min(max(int(v), info.min), info.max)) for v in vs})
+    f = np.dtype(dt).type
+    for v in e:
+        c = f(v)
+        vs += [c, np.nextafter(c, f(-np.inf)), np.nextafter(c, f(np.inf))]
+    for a, b in zip(e, e[1:]):
+        vs.append(f((a + b) / 2))
+    vs += [f(e[0] - span / 3), f(e[-1] + span / 3), f(-abs(e[-1]) - 1.0)]
+    return sorted({float(v) for v in vs})
+
+
+def run_holo_typed(F1, F2, A2, e1, e2, mode, dt1, dt2, edt1=None, edt2=None, seq=0):
+    """_spec.run_holo with the frequency arrays (and optionally the edge vectors) in the given dtypes: the same sequence of calls
+    on the same array objects (three squash settings, the other mode, the first setting again)."""
+    from emd import spectra
+
+    def edges(e, edt):
+        e = np.asarray(e, dtype=float)
+        if edt == 'list':
+            return [float(v) for v in e]
+        return e.astype(edt) if edt else e
+    P = [np.array(F1, dtype=float).astype(dt1), np.array(F2, dtype=float).astype(dt2), _spec.arr(A2), edges(e1, edt1), edges(e2, edt2)]
+    W = [x.copy() if isinstance(x, np.ndarray) else list(x) for x in P]
+    names = ('infr', 'infr2', 'inam2', 'freq_edges', 'freq_edges2')
+    order = _spec.HOLO_ORDERS[seq % len(_spec.HOLO_ORDERS)]
+    calls = [(nm, mode, nm) for nm in order] + [('other', _spec.other_mode(mode), order[1]), ('again', mode, order[0])]
+    out = {'order': ['%s:%s/%s' % c for c in calls], 'modified': {}}
+    for lab, md, sq in calls:
+        def go(md=md, sq=sq):
+            h = spectra.holospectrum(W[0], W[1], W[2], W[3], W[4], mode=md, squash_time=_spec.SQ[sq])
+            return dict(_spec.pack(h), squash=sq, mode=md)
+        out[lab] = _spec._guard(go)
+        for arg, now, pristine in zip(names, W, P):
+            if arg not in out['modified'] and (list(now) != list(pristine) if isinstance(now, list) else _spec.changed(now, pristine)):
+                out['modified'][arg] = '%s:%s/%s' % (lab, md, sq)
+    return out
+
+
+class Typed(Single):
+    """Integer / single-precision frequency arrays (and integer / list bin-edge vectors): the value of every sample and of every
+    edge is an exact real number whatever its dtype, so the cell "containing its two frequencies" is the same cell."""
+    name = 'holo_dtype'
+
+    def corpus(self):
+        A = lambda T, M, K: [[[float(1 + ((t * M + j) * K + k) % 7) for k in range(K)] for j in range(M)] for t in range(T)]  # noqa: E731
+        half = {'explicit': [0.5, 1.5, 2.5, 3.5]}
+        tenth = {'explicit': [0.1, 0.3, 0.7, 0.9]}
+        f32 = lambda v: float(np.float32(v))  # noqa: E731
+        cs = []
+        for mode in _spec.MODES:
+            # integer Hz carriers / AM frequencies against half-integer edges: 2 Hz lies in [1.5, 2.5)
+            cs.append({'F1': [[0.0, 1.0], [2.0, 3.0], [4.0, 2.0]], 'F2': [[[1.0, 2.0], [3.0, 0.0]], [[2.0, 2.0], [1.0, 4.0]], [[3.0, 1.0], [2.0, 3.0]]],
+                       'A2': A(3, 2, 2), 'e1': half, 'e2': half, 'mode': mode, 'dt1': 'int64', 'dt2': 'int64', 'seq': 1})
+            cs.append({'F1': [[2.0], [3.0]], 'F2': [[[1.5]], [[2.0]]], 'A2': A(2, 1, 1), 'e1': half, 'e2': half, 'mode': mode,
+                       'dt1': 'int32', 'dt2': 'float64', 'seq': 0})
+            # float32 frequencies on the float32 roundings of edges that are not float32 numbers (0.7 rounds DOWN: float32(0.7) < 0.7)
+            cs.append({'F1': [[f32(0.7), f32(0.3)], [f32(0.1), f32(0.9)]], 'F2': [[[f32(0.7)], [f32(0.5)]], [[f32(0.3)], [f32(0.9)]]],
+                       'A2': A(2, 2, 1), 'e1': tenth, 'e2': tenth, 'mode': mode, 'dt1': 'float32', 'dt2': 'float32', 'seq': 2})
+            # integer-typed edge vectors with fractional frequencies (the mirror image)
+            cs.append({'F1': [[0.5, 1.5], [2.0, 2.999]], 'F2': [[[0.999], [1.0]], [[1.5], [3.0]]], 'A2': A(2, 2, 1),
+                       'e1': {'explicit': [0.0, 1.0, 2.0, 3.0]}, 'e2': {'explicit': [0.0, 1.0, 2.0, 3.0]}, 'mode': mode,
+                       'dt1': 'float64', 'dt2': 'float64', 'edt1': 'int64', 'edt2': 'int32', 'seq': 3})
+        return cs
+
+    def generate(self, rng, tier):
+        for _ in range(500 if tier == 'thorough' else 90):
+            dt1, dt2 = rng.choice(DTYPES), rng.choice(DTYPES)
+            if dt1 == dt2 == 'float64':
+                dt1 = rng.choice(DTYPES[:-1])
+
+            def es(dt, nb):
+                r = rng.random()
+                if dt.startswith('int'):
+                    if r < 0.4:
+                        lo = rng.choice([0.5, 1.5, 0.25, rng.randint(0, 6) + rng.choice([0.5, 0.1, 0.9])])
+                        return {'lo': lo, 'hi': lo + nb * rng.choice([1, 1, 2, 3]), 'n': nb, 'scale': 'linear'}
+                    if r < 0.6:
+                        return {'lo': 0.5, 'hi': rng.choice([8.0, 20.0, 64.0]), 'n': nb, 'scale': 'log'}
+                    if r < 0.85:
+                        lo = rng.uniform(0, 5)
+                        return {'lo': lo, 'hi': lo + rng.uniform(1.5, 12), 'n': nb, 'scale': 'linear'}
+                    lo = float(rng.randint(0, 4))          # integer edges: every integer sample is edge-valued
+                    return {'lo': lo, 'hi': lo + nb * rng.choice([1, 2]), 'n': nb, 'scale': 'linear'}
+                if r < 0.35:
+                    return {'lo': 0.1, 'hi': 0.1 + 0.2 * nb, 'n': nb, 'scale': 'linear'}
+                if r < 0.55:
+                    return {'explicit': sorted(rng.sample([0.1, 0.2, 0.3, 0.6, 0.7, 0.9, 1.1, 1.3, 1.7, 2.3], nb + 1))}
+                if r < 0.75:
+                    lo = rng.choice([0.1, 0.3, rng.uniform(0.01, 3)])
+                    return {'lo': lo, 'hi': lo * rng.choice([10.0, rng.uniform(1.5, 50)]), 'n': nb, 'scale': 'log'}
+                lo = rng.uniform(0, 10)
+                return {'lo': lo, 'hi': lo + rng.uniform(0.1, 40), 'n': nb, 'scale': 'linear'}
+            es1, es2 = es(dt1, rng.choice([1, 2, 3, 4, 8])), es(dt2, rng.choice([1, 2, 3, 5, 8]))
+            e1, e2 = _spec.make_edges(es1), _spec.make_edges(es2)
+            g1, g2 = near_values(e1, dt1), near_values(e2, dt2)
+            T, M, K = rng.choice([1, 2, 3, 5, 8, 16]), rng.choice([1, 1, 2, 3]), rng.choice([1, 2, 3])
+            F1 = [[rng.choice(g1) for _ in range(M)] for _ in range(T)]
+            F2 = [[[rng.choice(g2) for _ in range(K)] for _ in range(M)] for _ in range(T)]
+            amp = rng.choice(['pos-int', 'int', 'dyadic'])
+            a = {'pos-int': lambda: float(rng.randint(1, 9)), 'int': lambda: float(rng.randint(-9, 9)),
+                 'dyadic': lambda: rng.randint(-64, 64) / 8.0}[amp]
+            A2 = [[[a() for _ in range(K)] for _ in range(M)] for _ in range(T)]
+            case = {'F1': F1, 'F2': F2, 'A2': A2, 'e1': es1, 'e2': es2, 'mode': rng.choice(_spec.MODES), 'seq': rng.randrange(6),
+                    'dt1': dt1, 'dt2': dt2}
+            if rng.random() < 0.15:
+                case['edt1'] = rng.choice(['list', 'float32'])
+            if rng.random() < 0.15:
+                case['edt2'] = rng.choice(['list', 'float32'])
+            yield case
+
+    def _edges(self, case):
+        # the edge VALUES the implementation is handed (a float32 / integer edge vector denotes its own values)
+        def ev(es, edt):
+            e = _spec.make_edges(es)
+            return e.astype(edt).astype(float) if edt and edt != 'list' else e
+        return ev(case['e1'], case.get('edt1')), ev(case['e2'], case.get('edt2'))
+
+    def impl(self, case):
+        e1, e2 = self._edges(case)
+        return run_holo_typed(case['F1'], case['F2'], case['A2'], e1, e2, case['mode'], case['dt1'], case['dt2'],
+                              case.get('edt1'), case.get('edt2'), seq=case.get('seq', 0))
+
+    def tags(self, case, out):
+        return Single.tags(self, case, out) + ['infr-dtype=' + case['dt1'], 'infr2-dtype=' + case['dt2'],
+                                              'edges-dtype=%s/%s' % (case.get('edt1', 'float64'), case.get('edt2', 'float64'))]
+
+
+class LongT(Stream):
+    """Recordings longer than any plausible internal block (2^15, 2^16 samples): "the time-averaged output equals the mean over
+    time of the full output" for every T, also when T is not a multiple of a block length (round 3, C11 patch 1: mean of block means).
+    The arrays are a function of the case's generator seed (a 40000-sample array is not carried as JSON)."""
+    name = 'holo_long'
+    timeout_s = 300
+
+    def corpus(self):
+        return [{'T': 2 ** 15 + 4321, 'M': 1, 'K': 1, 'gseed': 1, 'e1': LIN(2), 'e2': LIN(2, 0.0), 'mode': 'energy', 'seq': 0},
+                {'T': 2 ** 16 + 4465, 'M': 1, 'K': 2, 'gseed': 2, 'e1': LIN(3), 'e2': LIN(1, 0.0), 'mode': 'amplitude', 'seq': 3}]
+
+    def generate(self, rng, tier):
+        for _ in range(8 if tier == 'thorough' else 1):
+            base = rng.choice([2 ** 15, 2 ** 15, 2 ** 16, 2 ** 14, 50000, 2 ** 17] if tier == 'thorough' else [2 ** 15, 2 ** 14, 2 ** 16])
+            yield {'T': base + rng.randint(1, base // 2), 'M': rng.choice([1, 2]), 'K': rng.choice([1, 2]), 'gseed': rng.randrange(10 ** 6),
+                   'e1': LIN(rng.choice([1, 2, 3])), 'e2': LIN(rng.choice([1, 2]), 0.0), 'mode': rng.choice(_spec.MODES),
+                   'seq': rng.randrange(6)}
+
+    def _data(self, case):
+        g = np.random.default_rng(case['gseed'])
+        T, M, K = case['T'], case['M'], case['K']
+        e1, e2 = _spec.make_edges(case['e1']), _spec.make_edges(case['e2'])
+
+        def fr(e, shape):
+            lo, hi = float(e[0]), float(e[-1])
+            # quarter steps: interiors, every edge exactly, out of range on either side; a slow drift over the recording so that
+            # the first and the last stretch of it differ in content
+            v = np.round(g.uniform(lo - 1.0, hi + 1.0, size=shape) * 4) / 4
+            drift = np.linspace(0.0, 1.0, shape[0]).reshape((-1,) + (1,) * (len(shape) - 1))
+            return np.where(g.random(shape) < drift * 0.6, lo + 0.25, v)
+        F1, F2 = fr(e1, (T, M)), fr(e2, (T, M, K))
+        A2 = g.integers(0, 10, size=(T, M, K)).astype(float)
+        return F1, F2, A2, e1, e2
+
+    def impl(self, case):
+        F1, F2, A2, e1, e2 = self._data(case)
+        return _spec.run_holo(F1, F2, A2, e1, e2, case['mode'], seq=case.get('seq', 0))
+
+    def ops(self, case, out):
+        F1, F2, A2, e1, e2 = self._data(case)
+        return [_spec.holo_coo_op(F1, F2, A2, e1, e2, case['mode'])]
+
+    def compare(self, case, out, results):
+        if isinstance(out, ImplError):
+            return 'implementation raised %s' % out['error']
+        return _spec.holo_compare_coo(out, results[0], 81.0 * case['M'] * case['K'])
+
+    @guarded
+    def holds(self, case, out):
+        if isinstance(out, ImplError):
+            return impl_error(out)
+        F1, F2, A2, e1, e2 = self._data(case)
+        fs = soften(_spec.holo_holds(F1, F2, A2, e1, e2, case['mode'], out))
+        for f in fs:
+            f.detail = 'T=%d M=%d K=%d (arrays: LongT._data of generator seed %d): %s' % (case['T'], case['M'], case['K'], case['gseed'], f.detail)
+        return fs
+
+    def tags(self, case, out):
+        T = case['T']
+        return ['mode=' + case['mode'], 'M=%d' % case['M'], 'K=%d' % case['K'],
+                'T:' + ('<=2^15' if T <= 2 ** 15 else '2^15..2^16' if T <= 2 ** 16 else '>2^16')]
+
+    def shrink(self, case):
+        T = case['T']
+        for t in (T // 2, T - T // 4, T - T // 8):
+            if 1024 < t < T:
+                yield dict(case, T=t)
+        if case['M'] > 1:
+            yield dict(case, M=1)
+        if case['K'] > 1:
+            yield dict(case, K=1)
+
+
 # the probe of review B / Proofs/C11.lean `decRows`: with e1=[3,2,1], e2=[0,1,2], amplitude mode the full output is
 # [[[0,1],[4,2]],[[0,0],[0,0]]]
 DEC_DATA = {'F1': [[1.5, 2.5], [3.0, 0.5]], 'F2': [[[0.5, 1.5], [1.0, 2.0]], [[0.0, 1.2], [None, 0.1]]],
@@ -457,27 +721,46 @@ class Malformed(Stream):
         F1, F2, A2 = self._arrays(case)
         return _spec.holo_ops(F1, F2, A2, case['e1'], case['e2'], case['mode'])
 
+    MISMATCH = ('T-differs', 'M-differs', 'K-differs', 'inam2-2d', 'infr2-2d', 'inam2-2d-K1')
+
     def compare(self, case, out, results):
         if isinstance(out, ImplError):
             return 'implementation raised %s' % out['error']
+        if case['why'] in self.MISMATCH or case['why'] in ('vector-vs-2d', 'edges-not-monotone', 'no-edges', 'single-edge', 'no-samples'):
+            # input no part of C11 quantifies over: WHICH exception rejects it is not compared (for K-differs it is raised inside
+            # scipy.sparse), only that model and implementation both reject / both answer
+            out = dict(out)
+            for (nm, _), r in zip(_spec.SQUASH, results):
+                if r.status == 'err' and 'error' in out[nm]:
+                    out[nm] = dict(out[nm], error=r.words[0])
+            a = out.get('again')
+            if a is not None and 'error' in a:
+                r = dict(zip([nm for nm, _ in _spec.SQUASH], results)).get(a.get('squash') or out['order'][0].split('/')[-1])
+                if r is not None and r.status == 'err':
+                    out['again'] = dict(a, error=r.words[0])
         return _spec.holo_compare(out, results, len(case['F1']), 64.0)
 
+    @guarded
     def holds(self, case, out):
         if isinstance(out, ImplError):
-            return [Failure('raises:' + out['error'], out['msg'])]
+            return impl_error(out)
         why = case['why']
-        fs = [] if why == 'ok' else _spec.modified_failures(out)     # (holo_holds reports them for 'ok')
-        if why in ('T-differs', 'M-differs', 'K-differs', 'vector-vs-2d'):
+        fs = [] if why == 'ok' else soften(_spec.modified_failures(out))     # (holo_holds reports them for 'ok')
+        if why in ('T-differs', 'M-differs', 'K-differs'):
+            # arrays that do not fit each other are outside the quantifier ("[T x M] and [T x M x K]") and the statement names no
+            # error: any exception counts as a rejection, and an answer is a mechanism-level finding only
             for nm, _ in _spec.SQUASH:
-                if out[nm].get('error') != 'ValueError':
+                if 'error' not in out[nm]:
                     fs.append(Failure('mismatched-shapes-not-rejected:' + nm,
-                                      'shapes %s %s %s: %s' % (np.shape(case['F1']), np.shape(case['F2']), np.shape(case['A2']),
-                                                               out[nm].get('error', 'returned a value'))))
+                                      'shapes %s %s %s: returned a value' % (np.shape(case['F1']), np.shape(case['F2']), np.shape(case['A2'])),
+                                      literal=False))
         elif why == 'ok':
-            fs += _spec.holo_holds(case['F1'], case['F2'], case['A2'], case['e1'], case['e2'], case['mode'], out)
+            fs += soften(_spec.holo_holds(case['F1'], case['F2'], case['A2'], case['e1'], case['e2'], case['mode'], out),
+                         case['F1'], case['F2'])
         elif why == 'no-samples':
+            # an empty recording (T = 0) is a degenerate member of "all [T x M] arrays": mechanism-level
             if out['none'].get('shape') != [0, len(case['e2']) - 1, len(case['e1']) - 1] or out['sum'].get('v') != [0.0] * 6:
-                fs.append(Failure('no-samples-not-empty', str(out)[:300]))
+                fs.append(Failure('no-samples-not-empty', str(out)[:300], literal=False))
         return fs
 
     def tags(self, case, out):
@@ -549,8 +832,10 @@ class SquashOther(Stream):
         if r.status != 'err':
             return 'model answered %s for an unrecognised squash_time' % r.raw[:80]
         for lab, got in out.items():
-            if got != r.words[0]:
-                return 'squash_time=%s: implementation %s, model err %s' % (lab, got, r.words[0])
+            # outside the documented values: that the call is refused is compared, not the class of the exception (in the pinned
+            # code a TypeError from subscripting a sparse matrix - an accident no caller may rely on)
+            if got == 'value':
+                return 'squash_time=%s: implementation returned a value, model err %s' % (lab, r.words[0])
         return None
 
     def holds(self, case, out):
@@ -563,4 +848,4 @@ class SquashOther(Stream):
         return t
 
 
-STREAMS = [Exhaustive(), Single(), Large(), Malformed(), SquashOther()]
+STREAMS = [Exhaustive(), Single(), Large(), Typed(), LongT(), Malformed(), SquashOther()]
